@@ -12,21 +12,155 @@ def P(pid, **kw):
     PROPS[pid] = kw
 
 
+
+_EXPL = "exploration"
+
+P("C01",
+  technique="PBT with independent oracle: rapid-generated envelopes (fresh / near-miss / re-assembled / byte-mutated) x policies; own JWS+COSE verifier and own payload decoder decide what a success may be; native fuzz in thorough",
+  level_text="Exploration: every success reported by verifier.Verify/VerifyBlob and notation.Verify/VerifyBlob over generated envelopes, descriptors, metadata maps and all 24 enforcement maps is re-checked by an independent implementation of the envelope formats; cannot prove absence, but reaches the products of factors (mismatch x satisfied metadata, customised level x tampering) the unit tests never combine.",
+  level_note="Trusts Go's crypto primitives, the harness's own JWS/COSE implementation (cross-validated against the library in both directions in every run) and fxamacker/cbor.",
+  health={"success": 50, "src=fresh": 20, "src=descriptor-nearmiss": 20, "src=metadata-nearmiss": 20, "src=reassembled": 20, "src=bytemutated": 20, "src=wrong-payload-type": 5},
+  fuzz=[{"name": "FuzzC01_VerifyJWS", "seconds": 120}, {"name": "FuzzC01_VerifyCOSE", "seconds": 120}],
+  assumptions=["cryptographic soundness of RSASSA-PSS/ECDSA as implemented by Go", "valid = valid under the six supported algorithms"])
+
+P("C02",
+  technique="model-based PBT: exhaustive no-plugin grid + rapid plugin scenarios against a decision table written from the statement; metamorphic monotonicity (strict=>permissive=>audit) and action-tagging relations; call-log invariants of scripted collaborators",
+  level_text="Exploration with an exhaustively enumerated core (all 24 enforcement maps x trust x identity x expiry x certificate-time x revocation situations without plugin) plus sampled plugin scenarios; the model restates the statement, the relations are model-independent.",
+  level_note="Trusts the scripted trust store / revocation / plugin mocks and the harness's envelope builders; margins of >= 30 min around the wall clock.",
+  health={"accept": 50, "reject": 50, "plugin": 50, "crit=unprocessed": 5, "crit=processed": 5, "rev=skip": 10, "logged-failure": 20},
+  assumptions=["non-critical extended attributes and a non-critical plugin-name attribute are outside the statement and not generated"])
+
+P("C03",
+  technique="model-based PBT: generated placements of chain certificates into typed named stores x statement store lists; set-semantics oracle + call-log invariant of an instrumented trust store",
+  level_text="Exploration: authenticity verdict and the exact (type,name) sequence of trust-store loads compared with a set-semantics model over generated placements, multi-statement documents, both schemes and formats.",
+  level_note="Trusts the instrumented trust store mock; a sub-family runs against the real directory-backed store.",
+  health={"auth=pass": 30, "auth=fail": 30, "decoy-wrong-type": 10, "decoy-unlisted": 10, "decoy-other-statement": 10, "listed-store-error": 10})
+
+P("C04",
+  technique="model-based + metamorphic PBT: structured subject/identity generators, own RFC 4514 renderer with generated spacing/alias/escaping; subset oracle on structured data; permutation/spacing/alias invariance",
+  level_text="Exploration: verdicts of the identity check on generated leaf/CA subjects and identity lists compared with a subset model evaluated on the structured form (the harness never parses DNs), plus metamorphic invariances.",
+  level_note="Trusts Go's pkix RDN encoding and the harness's escaper (cross-checked by the exact-match positive class).",
+  health={"class=match": 30, "class=subset": 30, "class=superset": 20, "class=nearmiss": 20, "class=ca-subject": 20, "class=uninterpretable": 10, "class=wildcard": 5, "class=no-x509-identity": 5})
+
+P("C05",
+  technique="bounded-exhaustive enumeration of all result vectors {OK,NonRevokable,Unknown,Revoked}^n, n<=4 x action x interface x scheme, plus rapid-generated decorations; aggregation oracle + received-options check of a scripted validator",
+  level_text="Exhaustive over the 340 result vectors x {enforce,log,skip} x both validator interfaces x both schemes (finite space, fully enumerated), sampled over method annotations and server errors.",
+  level_note="Trusts the scripted validator to record the options it received; result vectors have the chain's length (validator contract).",
+  health={"final=ok": 10, "final=revoked": 10, "final=unknown": 10, "validator-error": 5, "action=skip": 10, "iface=client": 10})
+
+P("C06",
+  technique="model-based PBT: generated expiry/signing-time/validity-window placements and RFC 3161 countersignatures from an in-process TSA; decision model of the statement; both-sides-data boundaries tested exactly",
+  level_text="Exploration over time placements (margins around the wall clock, exact boundaries where both sides are data) and countersignature situations produced by an in-process TSA.",
+  level_note="Trusts the in-process TSA port and tspclient-go's CMS verification; no assertion at exact wall-clock instants.",
+  health={"expiry=past": 10, "expiry=future": 10, "scheme=sa": 20, "tsa=applies": 30, "token=valid": 10, "token=absent": 5, "token=wrong-imprint": 5, "token=untrusted-tsa": 5, "ts=pass": 10, "ts=fail": 10})
+
+P("C07",
+  technique="round-trip PBT: sign with the real signing API (local + honest in-process plugin signers) then verify; payload/digest/expiry/descriptor/metadata compared with the harness's own computation",
+  level_text="Exploration: full sign->verify round trips over key specs x formats x signer kinds x OCI/blob targets x metadata x expiry; every observable the statement names is recomputed independently.",
+  level_note="Trusts Go's crypto and JSON; JWS descriptor sizes are bounded by 2^53 (known finding F13 in a dependency).",
+  health={"kind=oci": 20, "kind=blob": 20, "signer=local": 10, "signer=plugin-raw": 10, "signer=plugin-envelope": 10, "format=jws": 20, "format=cose": 20},
+  shards={"quick": 12, "thorough": 16})
+
+P("C08",
+  technique="model-based + metamorphic PBT: confusable scope alphabet, all statement permutations, generated references; exact-membership model; mutation-isolation (private copy) oracle via deep snapshots",
+  level_text="Exploration (cheap, very many cases): selection compared with an exact-membership model on generated valid documents and references, permutation invariance, and deep-mutation of every returned statement followed by snapshot comparison.",
+  level_note="Repository paths are known well-formed by construction; trusts reflect.DeepEqual for snapshots.",
+  health={"hit=exact": 100, "hit=wildcard": 100, "hit=none": 100, "ref=nearmiss": 100, "blob": 100, "privacy-mutation": 100})
+
+P("C09",
+  technique="grammar-based PBT with rule-violation operators: valid documents from a grammar + 0..2 labelled violating edits; accept iff zero edits (validity known by construction); native fuzz over policy JSON in thorough",
+  level_text="Exploration: one mutation operator per structural rule, applied to generated valid documents of both kinds, fed as Go values and as JSON files; accepted documents are additionally checked to enforce integrity.",
+  level_note="Validity of every component is known by construction; the harness never parses DNs or scopes to decide.",
+  health={"edits=0": 100, "edits=1": 100, "edits=2": 50, "kind=oci": 100, "kind=blob": 100},
+  fuzz=[{"name": "FuzzC09_PolicyJSON", "seconds": 120}])
+
 P("C10",
   technique="model-based PBT: bounded-exhaustive enumeration + rapid random listings against a decision model, scripted repository/verifier call logs",
   level_text="Exploration with an exhaustively enumerated core: every listing of up to 5 (quick) / 7 (thorough) signatures x every page split x every limit x reference kinds is run through notation.Verify and compared with a model written from the statement, including exact fetch/verify call counts; larger listings are sampled with rapid.",
   level_note="Trusts the scripted Repository/Verifier mocks to record calls faithfully and oras' reference parser for what counts as a tag/digest reference.",
   design_ref="DESIGN.md section 5, C10",
-  exhaustive_all=False,
   health={"success": 10, "success-after-invalid": 5, "multi-page": 10, "empty-page": 5, "skip": 5, "ref=mismatch": 5, "limit<=0": 5},
-  assumptions=["scripted repository and verifier stand in for a registry; the real verifier + OCI store family is covered by C19/C07 round trips",
-               "a verifier that returns an error together with a nil outcome is outside the statement and not generated"],
-  )
+  assumptions=["a verifier that returns an error together with a nil outcome is outside the statement and not generated"])
+
+P("C11",
+  technique="stateful PBT (rapid state machine of 1..3 SignOCI calls) over a retaining scripted repository, an in-memory store and an on-disk OCI layout; tree-diff and deep-snapshot oracles",
+  level_text="Exploration over call sequences: signer input, pushed subject/annotations, and the complete before/after state of repository, descriptors and option maps are compared with pristine copies.",
+  level_note="Trusts oras-go's OCI layout implementation and the harness's tree snapshot.",
+  health={"repo=scripted": 20, "repo=oci-layout": 20, "calls>=2": 20, "meta=colliding": 5, "meta=reserved": 5, "ref=digest-mismatch": 5})
+
+P("C12",
+  technique="robustness PBT + fuzzing: structured mutations of valid inputs and the full verifier-configuration cross product run under recover with allocation accounting; eight native fuzz targets in thorough",
+  level_text="Exploration: every public entry point x input kind x verifier configuration is called under recover; a panic, a runaway allocation (explicit threshold) or an inconsistent (outcome, error) pair is a violation.",
+  level_note="'Runaway allocation' is an explicit threshold (512 MiB for inputs < 4 MiB), not a proof of boundedness; panics in goroutines the library might spawn would crash the worker (reported as inconclusive).",
+  health={"entry=verifier.Verify": 50, "entry=verifier.VerifyBlob": 50, "entry=notation.Verify": 20, "entry=notation.VerifyBlob": 20, "config-cross": 50, "parsed": 50},
+  fuzz=[{"name": "FuzzC12_Envelope", "seconds": 90}, {"name": "FuzzC12_PolicyJSON", "seconds": 60}, {"name": "FuzzC12_ConfigJSON", "seconds": 60}, {"name": "FuzzC12_CacheEntry", "seconds": 60}])
+
+P("C13",
+  technique="model-based PBT over real directory trees: generated store type/name/directory shape/entries; all-or-nothing oracle on exact DER multiset and typed errors",
+  level_text="Exploration: GetCertificates on generated trust-store trees compared with a model that knows every entry's validity by construction.",
+  level_note="FIFOs/devices are excluded (would block); runs as root, so permission-denied classes are not generated.",
+  health={"ok": 50, "fail": 50, "entry=symlink": 10, "entry=subdir": 10, "entry=leaf": 10, "store=symlink": 5, "type=tsa": 20, "name=nonplain": 10})
+
+P("C14",
+  level="fault_enumeration",
+  technique="schedule and crash-point enumeration: hook-owned interleavings (bounded-exhaustive for 2 writers) with a read of every URL after every step, kill at every hook step of generated store sequences, strace kill injection at every cache syscall (thorough), free-running goroutine/process stress; porcupine register linearizability as the history oracle",
+  level_text="Fault enumeration: every step boundary of a store (temp created / written / closed / renamed) is used as a pre-emption point and as a crash point; histories are checked for linearizability as a per-URL register and every read must be a miss or a byte-exact stored bundle.",
+  level_note="Crash = SIGKILL of the writing process (no power loss / fsync semantics); scheduling inside a single write(2) is only sampled by the free-running explorer. Uses the verif-tag hooks in internal/file.WriteFile; the free-running and strace explorers do not depend on them.",
+  helpers=["crlworker"],
+  health={"explorer=schedules": 50, "explorer=crash-hook": 20, "explorer=free-running": 1},
+  timeout={"quick": 1200, "thorough": 7200})
+
+P("C15",
+  technique="stateful model-based PBT (rapid state machine Set/Get/Corrupt/Reopen) against a map model with own entry decoder; native fuzz of cache files in thorough",
+  level_text="Exploration over operation sequences on confusable URL sets with fresh/expired base and delta CRLs and every corruption operator; sandbox-escape and file-name invariants after every step.",
+  level_note="Freshness classes keep >= 1 h margins from the wall clock; trusts crypto/x509 CRL parsing for the harness's own decoder.",
+  health={"op=set": 100, "op=get-hit": 50, "op=get-miss": 50, "op=corrupt": 50, "expired": 20, "delta": 20},
+  fuzz=[{"name": "FuzzC15_CacheEntry", "seconds": 120}])
+
+P("C16",
+  technique="PBT over a path-traversal name grammar with planted sentinel executables and decoy directories inside a sacrificial tree; no-execution / no-change tree-diff oracle; end-to-end through verifier.Verify with the real CLIManager",
+  level_text="Exploration: for every generated name and operation the whole sacrificial base is snapshotted before/after; a marker written by a sentinel or any tree change for a non-single-component name is a violation; positive control proves executions are observable.",
+  level_note="Containment: '..' depth is bounded below the root depth and every case whose join would leave the sacrificial base is skipped and counted.",
+  health={"name=traversal": 50, "name=plain": 20, "op=get": 20, "op=uninstall": 20, "op=install-file": 10, "op=install-dir": 10, "op=verify-e2e": 10, "op=list": 10},
+  shards={"quick": 8, "thorough": 16})
+
+P("C17",
+  technique="behaviour-product PBT over real child processes (scriptable fakeplugin): exit code x stdout x stderr x timing for the five commands; response/error-mapping oracle, allocation accounting for the cap, wide-margin time bound",
+  level_text="Exploration over generated plugin behaviours with real processes; output cap judged by allocation accounting and by the impossibility of over-cap successes; time bound with a margin (10 s) far from the descendants' 40 s sleep.",
+  level_note="The numeric time bound and allocation threshold are the harness's choices (the statement says 'bounded'); arbitrary plugin behaviour is sampled from the listed classes.",
+  helpers=["fakeplugin"],
+  health={"cmd=get-plugin-metadata": 20, "exit!=0": 20, "stdout=overcap": 1, "timing=descendant": 1, "timing=slow": 1},
+  timeout={"quick": 900, "thorough": 5400})
+
+P("C18",
+  technique="adversarial-collaborator PBT: scripted in-process signing plugin holding real keys answers with generated edit scripts of the honest answer; independent verifier + verifier-equivalent payload decoding as oracle; native fuzz of payload bytes in thorough",
+  level_text="Exploration: whatever PluginSigner.Sign/SignBlob returns for generated adversarial plugin answers is re-verified independently and compared with the request; a panic or an unchecked signature is a violation.",
+  level_note="Trusts the harness's own envelope implementation; the plugin holds real keys so that only the semantic edits differ from an honest answer.",
+  health={"path=envelope": 50, "path=raw": 50, "honest": 10, "edit=descriptor": 10, "edit=annotation": 10, "edit=extra-field": 10, "edit=key-spelling": 5, "returned-signature": 10, "returned-error": 50},
+  fuzz=[{"name": "FuzzC18_PluginPayload", "seconds": 120}])
+
+P("C19",
+  technique="stateful model-based PBT (rapid state machine of pushes / foreign and hostile referrers / reopen / list / fetch) over an on-disk OCI layout and an in-memory store; multiset model of signatures per subject",
+  level_text="Exploration over push histories: listing and fetching compared with a model multiset per subject; hostile referrers must be refused before their content is read (blob-fetch log).",
+  level_note="One oci.Store instance per session (oras behaviour); trusts oras-go's store for the non-notation parts.",
+  health={"op=push-signature": 100, "op=push-foreign": 30, "op=push-hostile": 30, "op=list": 100, "op=fetch": 100, "subjects>=2": 30, "op=reopen": 10})
+
+P("C20",
+  technique="stateful model-based PBT (rapid state machine Install/Uninstall/Get/List) over a real plugin root with generated script plugins; own semver-precedence implementation; tree-snapshot oracle and metamorphic source-shape relations",
+  level_text="Exploration over install/uninstall histories with versions chosen to separate precedence from string order and source shapes (file/dir, candidates, extra files, sub-directories); refused installs must leave the tree identical.",
+  level_note="Plugins are generated shell scripts (the manager only needs an executable printing metadata); trusts the harness's semver implementation (written from semver.org section 11).",
+  health={"op=install": 100, "install=refused": 30, "install=replaced": 20, "src=dir": 30, "src=file": 30, "dir-extra-entries": 20, "op=uninstall": 20},
+  timeout={"quick": 900, "thorough": 5400})
 
 
 def manifest():
+    import json, os
+    here = os.path.dirname(os.path.abspath(__file__))
+    claimed = json.load(open(os.path.join(here, "claimed.json")))
     checks = []
     for pid in sorted(PROPS):
+        if pid not in claimed:
+            continue
         c = PROPS[pid]
         checks.append({
             "property_id": pid,
@@ -39,10 +173,9 @@ def manifest():
             "level_note": c["level_note"],
             "technique": c["technique"],
         })
-    import json, os
-    na_path = os.path.join(os.path.dirname(os.path.abspath(__file__)), "not_applicable.json")
+    na_path = os.path.join(here, "not_applicable.json")
     na = json.load(open(na_path)) if os.path.exists(na_path) else []
-    na = [x for x in na if x["property_id"] not in PROPS]
+    na = [x for x in na if x["property_id"] not in claimed]
     hooks_path = os.path.join(os.path.dirname(os.path.abspath(__file__)), "hook_commits.json")
     hook_commits = json.load(open(hooks_path)) if os.path.exists(hooks_path) else []
     return {
@@ -58,7 +191,7 @@ def manifest():
         "engines": [{
             "name": "harness",
             "path": "/verif/harness",
-            "serves_properties": sorted(PROPS),
+            "serves_properties": sorted(claimed),
             "kind_free_text": "Go module (replace notation-go => /repo) with rapid v1.3.0 properties/state machines, bounded-exhaustive enumerations, native go fuzz targets (thorough tier), porcupine linearizability oracle; driven by tools/check.py",
         }],
         "checks": checks,
